@@ -691,6 +691,15 @@ pub fn driver_text(k: usize, spec: &GSpec, built: &Built, reduced: bool, generat
             arms(&|v| format!("      {v} => bincode::deserialize::<CappedRecord{v}<CAP>>(bytes).map(Rec::V{v}).map_err(|e| e.to_string()),"))
         );
     }
+    let _ = writeln!(
+        w,
+        "    #[cfg(feature = \"threads\")]
+    Op::ThreadShare {{ slot, mask }} => {{ let r = self.slot_ref(*slot); let mask = *mask; out.rows = std::thread::scope(|s| {{ let hs: Vec<_> = (0..3).map(|_| s.spawn(move || match r {{ Rec::Empty => Vec::new(),\n{} }})).collect(); hs.into_iter().map(|h| h.join().unwrap()).collect() }}); }}
+    #[cfg(feature = \"threads\")]
+    Op::ThreadSend {{ slot, mask }} => {{ let r = self.take(*slot); let mask = *mask; let (r, o) = std::thread::spawn(move || {{ let o = match &r {{ Rec::Empty => Vec::new(),\n{} }}; (r, o) }}).join().unwrap(); out.rows = vec![o]; *self.slot_mut(*slot) = r; }}",
+        arms(&|v| format!("      Rec::V{v}(x) => read_all_{v}(x, mask),")),
+        arms(&|v| format!("      Rec::V{v}(x) => read_all_{v}(x, mask),"))
+    );
     let _ = writeln!(w, "    _ => panic!(\"operation not supported by this module\") }} out }}");
     let _ = writeln!(w, "}}");
     s
@@ -775,7 +784,7 @@ pub fn mode(args: &Args) {
     );
     write_if_changed(&dir.join("src").join("main.rs"), &main);
     let cargo = format!(
-        "[package]\nname = \"gendrv\"\nversion = \"0.1.0\"\nedition = \"2021\"\n\n[workspace]\n\n[dependencies]\ndrvlib = {{ path = \"/verif/harness/drvlib\" }}\nvtypes = {{ path = \"/verif/harness/vtypes\" }}\ntruc_runtime = {{ path = \"/repo/truc_runtime\" }}\nstatic_assertions = \"1\"\nserde = \"1\"\nserde_json = \"1\"\nbincode = \"1\"\n\n[features]\nhooks = [\"drvlib/hooks\", \"truc_runtime/verif-hooks\"]\n\n[profile.dev]\ndebug = 1\ndebug-assertions = true\noverflow-checks = true\n\n[profile.release]\nopt-level = 3\ndebug = 1\ncodegen-units = 16\n"
+        "[package]\nname = \"gendrv\"\nversion = \"0.1.0\"\nedition = \"2021\"\n\n[workspace]\n\n[dependencies]\ndrvlib = {{ path = \"/verif/harness/drvlib\" }}\nvtypes = {{ path = \"/verif/harness/vtypes\" }}\ntruc_runtime = {{ path = \"/repo/truc_runtime\" }}\nstatic_assertions = \"1\"\nserde = \"1\"\nserde_json = \"1\"\nbincode = \"1\"\n\n[features]\nhooks = [\"drvlib/hooks\", \"truc_runtime/verif-hooks\"]\nthreads = []\n\n[profile.dev]\ndebug = 1\ndebug-assertions = true\noverflow-checks = true\n\n[profile.release]\nopt-level = 3\ndebug = 1\ncodegen-units = 16\n"
     );
     write_if_changed(&dir.join("Cargo.toml"), &cargo);
     std::fs::create_dir_all(dir.join(".cargo")).unwrap();
